@@ -414,6 +414,8 @@ class Ev:
 			return self.lift({'True': True, 'False': False, 'None': None}[name])
 		if self.mode == 'spec' and self.old is not None and name in self.old.env:
 			return self.old.env[name]
+		if name in REG.consts:
+			return self.lift(REG.consts[name])
 		if name in REG.specs:
 			return SpecRef(None, name=name)
 		if name in REG.lemmas:
